@@ -1,6 +1,7 @@
 package main
 
 import (
+	"bytes"
 	"context"
 	"encoding/binary"
 	"flag"
@@ -184,7 +185,7 @@ func regionSweep(ctx context.Context, run *Runner, fx *Fixture, rng *PRNG, prop 
 	} else {
 		for _, st := range stored {
 			for _, rt := range reqv {
-				all = append(all, c4{0, st, 0, rt})
+				all = append(all, c4{0, st, 0, rt}, c4{1, st, 0, rt}) // ss = 1: the stored record in the legacy format
 			}
 		}
 	}
@@ -201,7 +202,11 @@ func regionSweep(ctx context.Context, run *Runner, fx *Fixture, rng *PRNG, prop 
 	for ci, c := range all {
 		hm := newSlashingMonitor()
 		if prop == "C01" {
-			if err := inst.Rules.VerifPutRaw(ctx, recKey(a.Key, 2), encodeAtt(c.ss, c.st)); err != nil {
+			recA := encodeAtt(c.ss, c.st)
+			if ci%4 == 3 {
+				recA = gobBytes(&signBeaconAttestationState{SourceEpoch: c.ss, TargetEpoch: c.st}) // as written by early releases
+			}
+			if err := inst.Rules.VerifPutRaw(ctx, recKey(a.Key, 2), recA); err != nil {
 				return n, err
 			}
 			var op *Op
@@ -243,7 +248,11 @@ func regionSweep(ctx context.Context, run *Runner, fx *Fixture, rng *PRNG, prop 
 			*monFail = append(*monFail, hm.attViolations()...)
 			n += 2
 		} else {
-			if err := inst.Rules.VerifPutRaw(ctx, recKey(a.Key, 3), encodeProp(c.st)); err != nil {
+			recP := encodeProp(c.st)
+			if c.ss == 1 {
+				recP = gobBytes(&signBeaconProposalState{Slot: c.st}) // as written by early releases
+			}
+			if err := inst.Rules.VerifPutRaw(ctx, recKey(a.Key, 3), recP); err != nil {
 				return n, err
 			}
 			mk := func(root byte) *Op {
@@ -263,6 +272,56 @@ func regionSweep(ctx context.Context, run *Runner, fx *Fixture, rng *PRNG, prop 
 			*monFail = append(*monFail, hm.propViolations()...)
 			n += 2
 		}
+	}
+	// histories across an upgrade: what a key signed under an early release (records in the legacy format) still
+	// binds it afterwards
+	c := fx.Accounts[2]
+	for vi, v := range []uint64{0, 1, 5, 1 << 40} {
+		hm := newSlashingMonitor()
+		_ = inst.Rules.VerifPutRaw(ctx, recKey(c.Key, 2), encodeAtt(-1, -1))
+		_ = inst.Rules.VerifPutRaw(ctx, recKey(c.Key, 3), encodeProp(-1))
+		mk := func(root byte) *Op {
+			if prop == "C01" {
+				return &Op{Kind: KAttest, Client: "client1", IP: "10.0.0.1", Addrs: []Addr{{Name: c.Path()}},
+					Atts: []AttData{{Dom: mkDomain(domAttester, 0), BBR: fill32(root), Src: &Checkpoint{v, fill32(0)}, Tgt: &Checkpoint{v, fill32(root)}}}}
+			}
+			return &Op{Kind: KPropose, Client: "client1", IP: "10.0.0.1", Addrs: []Addr{{Name: c.Path()}},
+				Props: []PropData{{Dom: mkDomain(domProposer, 0), Slot: v, Pidx: 1, Parent: fill32(0), State: fill32(root), Body: fill32(root)}}}
+		}
+		rec, err := run.execStep(inst, -2, vi, mk(1))
+		if err != nil {
+			return n, err
+		}
+		hm.note(inst, rec)
+		// the upgrade seen backwards: the records of the store, same values, in the legacy encoding
+		raw, err := inst.Rules.VerifRaw(ctx)
+		if err != nil {
+			return n, err
+		}
+		for k, val := range raw {
+			if !bytes.Equal(k[:48], c.Key) || len(val) == 0 || val[0] != 1 {
+				continue
+			}
+			switch {
+			case k[48] == 2 && len(val) == 17:
+				_ = inst.Rules.VerifPutRaw(ctx, k[:], gobBytes(&signBeaconAttestationState{
+					SourceEpoch: int64(binary.LittleEndian.Uint64(val[1:9])), TargetEpoch: int64(binary.LittleEndian.Uint64(val[9:17]))}))
+			case k[48] == 3 && len(val) == 9:
+				_ = inst.Rules.VerifPutRaw(ctx, k[:], gobBytes(&signBeaconProposalState{Slot: int64(binary.LittleEndian.Uint64(val[1:9]))}))
+			}
+		}
+		rec2, err := run.execStep(inst, -2, vi, mk(2))
+		if err != nil {
+			return n, err
+		}
+		hm.note(inst, rec2)
+		if prop == "C01" {
+			*monFail = append(*monFail, hm.attViolations()...)
+		} else {
+			*monFail = append(*monFail, hm.propViolations()...)
+		}
+		n += 2
+		run.stats["sweep.legacy-histories"]++
 	}
 	run.stats["sweep.cases"] = n
 	return n, nil
